@@ -396,6 +396,22 @@ def reciprocal(q: Poly) -> Poly:
         den = (q * q.conj()).real()
         return mul_bounded(q.conj(), reciprocal(den))
     c = cur()
+    # factor out the monomial content: 1/(g*q') = g^-1 * 1/q'  (so that c^2*t and t share one denominator symbol)
+    common = None
+    for m in q.t:
+        d = dict(m)
+        d.pop(0, None)
+        if common is None:
+            common = d
+        else:
+            common = {v: (min(ex, d[v]) if ex > 0 else max(ex, d[v])) for v, ex in common.items() if v in d and (d[v] > 0) == (ex > 0)}
+        if not common:
+            break
+    if common:
+        g = tuple(sorted(common.items()))
+        ginv = tuple((v, -ex) for v, ex in g)
+        rest = q.mul_mono(ginv)
+        return reciprocal(rest).mul_mono(ginv)
     if len(q.t) > 24:
         q = alias_poly(q)
         return q.inv_monomial()
@@ -440,6 +456,31 @@ def frac_power(q: Poly, e: Fraction) -> Poly:
             return Poly.const(fr)
     c = cur()
     den = e.denominator
+    if den == 2 and c.positive_vars and len(q.t) >= 1:
+        # sqrt(v^2 * q') = v * sqrt(q') for variables known to be positive (e.g. std(a*x) = a*std(x))
+        common = None
+        for m in q.t:
+            d = {v: ex for v, ex in m if v in c.positive_vars and ex >= 2}
+            if common is None:
+                common = d
+            else:
+                common = {v: min(ex, d[v]) for v, ex in common.items() if v in d}
+            if not common:
+                break
+        if common:
+            fac = tuple(sorted((v, ex - ex % 2) for v, ex in common.items() if ex - ex % 2 >= 2))
+            if fac:
+                inv = tuple((v, -ex) for v, ex in fac)
+                half = tuple((v, ex // 2) for v, ex in fac)
+                rest = q.mul_mono(inv)
+                inner = frac_power(rest, Fraction(1, 2))
+                out = inner.mul_mono(half)
+                n = e.numerator
+                if n == 1:
+                    return out
+                if n == -1:
+                    return reciprocal(out)
+                return Sym(out).__pow__(n).p
     cache = c.caches.setdefault("root", {})
     k = (q.key(), den)
     if k not in cache:
